@@ -165,7 +165,9 @@ func c02Classify(raw []byte, srcAt netip.AddrPort, to *simSock, cr c02Creds, kno
 			return "inert"
 		}
 		for _, o := range outstanding {
-			if o.txid == m.TransactionID && !o.expired && o.dst == srcAt && o.src == to {
+			// (the property ties a response to the remote address the request was sent to; which local
+			// candidate receives it is not part of C02 — see D20 under C03)
+			if o.txid == m.TransactionID && !o.expired && o.dst == srcAt {
 				return "effective"
 			}
 		}
@@ -559,6 +561,195 @@ func TestVerif_C02_Injection(t *testing.T) {
 		}
 		if s.w.elapsed() > 2*time.Second {
 			st.Inconclusive()
+		}
+	})
+}
+
+// ---- native fuzz target on the same oracle (thorough tier)
+//
+// Input layout: 6 control bytes, then the message body as TLVs.  The control bytes choose the scenario
+// (role, phase), the STUN type, the transaction id (fresh or one of the outstanding ones), the source
+// address (known endpoint, other known endpoint, unknown), and which key — none, the local password, the
+// remote password, a wrong one — signs the message; TLV types 0xFFF0..0xFFF3 are shorthands for USERNAME
+// values built from the real credentials, so that coverage-guided mutation reaches the authenticated paths.
+func c02FuzzBuild(data []byte, cr c02Creds, outstanding []c02Outstanding) (raw []byte, srcSel int, toSel int) {
+	ctl, body := data[:6], data[6:]
+	m := stun.New()
+	classes := []stun.MessageClass{stun.ClassRequest, stun.ClassSuccessResponse, stun.ClassErrorResponse, stun.ClassIndication}
+	method := stun.MethodBinding
+	if ctl[1]&0x30 == 0x30 {
+		method = stun.Method(uint16(ctl[1])<<4 | uint16(ctl[2]>>4))
+	}
+	m.Type = stun.MessageType{Method: method, Class: classes[ctl[1]&3]}
+	if k := int(ctl[3]); k > 0 && len(outstanding) > 0 && k <= 2*len(outstanding) {
+		m.TransactionID = outstanding[(k-1)%len(outstanding)].txid
+	} else {
+		for i := range m.TransactionID {
+			m.TransactionID[i] = ctl[3] ^ byte(i*37)
+		}
+	}
+	m.WriteHeader()
+	for len(body) >= 3 {
+		typ := stun.AttrType(uint16(body[0])<<8 | uint16(body[1]))
+		n := int(body[2])
+		body = body[3:]
+		if n > len(body) {
+			n = len(body)
+		}
+		val := body[:n]
+		body = body[n:]
+		switch typ {
+		case 0xFFF0:
+			typ, val = stun.AttrUsername, []byte(cr.localU+":"+cr.remoteU)
+		case 0xFFF1:
+			typ, val = stun.AttrUsername, []byte(cr.remoteU+":"+cr.localU)
+		case 0xFFF2:
+			typ, val = stun.AttrUsername, []byte(cr.localU+":"+string(val))
+		case 0xFFF3:
+			typ, val = stun.AttrUsername, []byte(cr.localU)
+		}
+		if typ == stun.AttrMessageIntegrity || typ == stun.AttrFingerprint {
+			continue // added below, computed
+		}
+		m.Add(typ, val)
+	}
+	switch ctl[4] & 3 {
+	case 1:
+		_ = stun.NewShortTermIntegrity(cr.localP).AddTo(m)
+	case 2:
+		_ = stun.NewShortTermIntegrity(cr.remoteP).AddTo(m)
+	case 3:
+		_ = stun.NewShortTermIntegrity("not-the-password-of-anybody").AddTo(m)
+	}
+	if ctl[4]&4 != 0 {
+		_ = stun.Fingerprint.AddTo(m)
+	}
+	raw = append([]byte{}, m.Raw...)
+	if ctl[4]&0x80 != 0 && len(raw) > 0 {
+		raw[int(ctl[5])%len(raw)] ^= 1 << (ctl[5] % 8)
+	}
+
+	return raw, int(ctl[2] & 3), int(ctl[2] >> 2 & 1)
+}
+
+func FuzzVerifC02Inbound(f *testing.F) {
+	// seeds: authentic request / response shapes and near misses
+	f.Add([]byte{0, 0, 0, 0, 1 | 4, 0, 0xFF, 0xF0, 0, 0x00, 0x24, 4, 0, 0, 0, 9, 0x80, 0x2A, 8, 1, 2, 3, 4, 5, 6, 7, 8})
+	f.Add([]byte{1, 0, 0, 0, 1 | 4, 0, 0xFF, 0xF0, 0, 0x00, 0x24, 4, 0, 0, 0, 9, 0x80, 0x29, 8, 1, 2, 3, 4, 5, 6, 7, 8, 0x00, 0x25, 0})
+	f.Add([]byte{2, 1, 0, 1, 2 | 4, 0, 0x00, 0x20, 8, 0, 1, 0x21, 0x12, 0xA4, 0x42, 0x21, 0x13})
+	f.Add([]byte{3, 1, 1, 2, 2, 0, 0x00, 0x20, 8, 0, 1, 0x21, 0x12, 0xA4, 0x42, 0x21, 0x13})
+	f.Add([]byte{0, 0, 2, 0, 1, 0, 0xFF, 0xF2, 3, 'a', 'b', 'c', 0x00, 0x25, 0})
+	f.Add([]byte{1, 3, 0, 0, 2 | 4, 0})
+	f.Add([]byte{0, 2, 0, 1, 2, 0, 0x00, 0x09, 4, 0, 0, 4, 87})
+	f.Add([]byte{2, 0, 0, 0, 3 | 4, 0, 0xFF, 0xF0, 0})
+	f.Add([]byte{0, 0, 0, 0, 0, 0, 0xFF, 0xF0, 0})
+	f.Add([]byte{0, 0, 0, 0, 1 | 0x80, 30, 0xFF, 0xF0, 0})
+	f.Fuzz(func(t *testing.T, data []byte) {
+		if len(data) < 6 || len(data) > 400 {
+			return
+		}
+		controlling := data[0]&1 != 0
+		phase := int(data[0] >> 1 & 3) // 0 checking, 1 connected, 2 restarted, 3 fresh
+		cfg := simAgentConfig{controlling: controlling, maxBinding: 7, disconnected: time.Hour, keepalive: 2 * time.Second, explicitTimeout: true}
+		locals := []duoSockSpec{{Kind: simKindHost}, {Kind: simKindSrflx}}
+		eps := []soloEpSpec{{Typ: CandidateTypeHost}, {Typ: CandidateTypeServerReflexive}, {Typ: CandidateTypeHost}}
+		s, err := newSoloSim(cfg, locals, eps)
+		if err != nil {
+			t.Fatalf("harness: %v", err)
+		}
+		defer s.close()
+		if err := s.ag.start(s.peer.ufrag, s.peer.pwd); err != nil {
+			t.Fatalf("harness: %v", err)
+		}
+		peerRole := "controlled"
+		if !controlling {
+			peerRole = "controlling"
+		}
+		signal := func() {
+			_ = s.ag.addRemoteSync(s.epCandidate(0, eps[0]))
+			_ = s.ag.addRemoteSync(s.epCandidate(1, eps[1]))
+		}
+		signal()
+		handshake := func() {
+			s.ag.tick()
+			for _, d := range s.agentRequests() {
+				if ep := s.epByAddr(d.dst); ep == s.eps[0] && d.src == s.ag.socks[0] {
+					s.removeInflight(d)
+					s.answer(d, ep)
+				}
+			}
+			if controlling {
+				s.ag.tick()
+				for _, d := range s.agentRequests() {
+					if ep := s.epByAddr(d.dst); ep == s.eps[0] && d.msg.useCand {
+						s.removeInflight(d)
+						s.answer(d, ep)
+					}
+				}
+			} else {
+				s.peerRequest(s.eps[0], s.ag.socks[0], true, nil, 100, peerRole, 77)
+				for _, d := range s.agentRequests() {
+					if ep := s.epByAddr(d.dst); ep == s.eps[0] && d.src == s.ag.socks[0] {
+						s.removeInflight(d)
+						s.answer(d, ep)
+					}
+				}
+			}
+		}
+		switch phase {
+		case 0:
+			s.ag.tick()
+		case 1:
+			handshake()
+			s.ag.tick()
+		case 2:
+			handshake()
+			s.ag.tick()
+			if err := s.ag.restart(); err != nil {
+				t.Fatalf("harness: %v", err)
+			}
+			s.w.mu.Lock()
+			s.w.inflight = nil
+			s.w.mu.Unlock()
+			for i, l := range locals {
+				if _, err := s.ag.addLocal(i, l.V6, l.Kind, true); err != nil {
+					t.Fatalf("harness: %v", err)
+				}
+			}
+			_ = s.ag.a.SetRemoteCredentials(s.peer.ufrag, s.peer.pwd)
+			signal()
+			s.ag.tick()
+		}
+		s.purgeNonRequests()
+		var outstanding []c02Outstanding
+		for _, d := range s.agentRequests() {
+			outstanding = append(outstanding, c02Outstanding{txid: d.msg.txid, src: d.src, dst: d.dst, d: d})
+		}
+		cur := c02Creds{s.ag.ufrag, s.ag.pwd, s.peer.ufrag, s.peer.pwd}
+		raw, srcSel, toSel := c02FuzzBuild(data, cur, outstanding)
+		ep := s.eps[srcSel%len(s.eps)]
+		to := s.ag.socks[toSel%len(s.ag.socks)]
+		srcAt := ep.pub
+		known := map[string]bool{}
+		rc, _ := s.ag.a.GetRemoteCandidates()
+		for _, r := range rc {
+			known[fmt.Sprintf("%s|%s|%d", r.NetworkType(), r.Address(), r.Port())] = true
+		}
+		cls := c02Classify(raw, srcAt, to, cur, known, outstanding)
+		if cls == "not-stun" || cls == "effective" {
+			return
+		}
+		before := c02Take(s.ag)
+		from := s.w.logLen()
+		s.injectFrom(ep, srcAt, to, raw)
+		emitted := s.w.emittedSince(from, 0)
+		after := c02Take(s.ag)
+		desc := fmt.Sprintf("controlling=%v phase=%d class=%s src=%s to=%s raw=%x", controlling, phase, cls, srcAt, to.name(), raw)
+		if len(emitted) != 0 {
+			t.Fatalf("VERIF-VIOLATION sig=C02/%s/answered %s: the agent emitted %v", cls, desc, emitted)
+		}
+		if df := c02Diff(before, after, cls == "liveness-only", cls == "liveness-only"); df != "" {
+			t.Fatalf("VERIF-VIOLATION sig=C02/%s/state-changed %s: %s", cls, desc, df)
 		}
 	})
 }
